@@ -113,9 +113,23 @@ Replay(lg) ==
   IN  FoldLeft(LAMBDA c, e : IF e.id \in ok THEN ApplyRec(c, e.r) ELSE c, Empty, lg)
 
 \* records of a committing transaction: only the last one carries the marker
-Stamp(id, rs) == [i \in 1..Len(rs) |-> [id |-> id, c |-> (i = Len(rs)), r |-> rs[i]]]
+\* (d: "in doubt", see F-C12-1 below)
+Stamp(id, rs) == [i \in 1..Len(rs) |-> [id |-> id, c |-> (i = Len(rs)), r |-> rs[i], d |-> FALSE]]
 \* the first n records of a failed commit: none carries the marker
-StampFailed(id, rs, n) == [i \in 1..n |-> [id |-> id, c |-> FALSE, r |-> rs[i]]]
+StampFailed(id, rs, n) == [i \in 1..n |-> [id |-> id, c |-> FALSE, r |-> rs[i], d |-> FALSE]]
+\* Known finding F-C12-1: a Commit that fails at the Sync of its last record
+\* has already written every record, the last one marked: the process does
+\* not apply the transaction, but the complete transaction sits at the tail
+\* of the active file.  A reopen shows it; the next commit that fits into
+\* the active file overwrites it (the write offset was not advanced), one
+\* that rotates first leaves it there for good.
+F_SyncDoubt == "F-C12-1"
+StampDoubt(id, rs) == [i \in 1..Len(rs) |-> [id |-> id, c |-> (i = Len(rs)), r |-> rs[i], d |-> TRUE]]
+\* the logs the next write may find: as is, or with the in-doubt tail overwritten
+TailDoubt(lg) == lg # <<>> /\ lg[Len(lg)].d
+DropTail(lg) == SelectSeq(lg, LAMBDA e : ~(e.d /\ e.id = lg[Len(lg)].id))
+Bases(lg) == IF TailDoubt(lg) THEN {lg, DropTail(lg)} ELSE {lg}
+ClearDoubt(lg) == [i \in 1..Len(lg) |-> [lg[i] EXCEPT !.d = FALSE]]
 
 -----------------------------------------------------------------------------
 (* Observation: everything a reader can see, in comparable form.           *)
@@ -389,7 +403,7 @@ Finished(a) ==
 CommitOK(a) ==
   /\ tx.st \in {"rw", "ro"} /\ ~a.err
   /\ mem' = IF tx.st = "rw" THEN tx.view ELSE mem
-  /\ log' = IF tx.st = "rw" THEN log \o Stamp(tx.id, tx.recs) ELSE log
+  /\ IF tx.st = "rw" /\ tx.recs # <<>> THEN \E B0 \in Bases(log) : log' = B0 \o Stamp(tx.id, tx.recs) ELSE log' = log
   /\ tx' = NoTx
   /\ UNCHANGED <<status, notes>>
 
@@ -403,12 +417,19 @@ CommitFail(a) ==
   /\ tx.st = "rw" /\ a.err
   /\ a.nw <= Len(tx.recs)
   /\ IF a.nw < Len(tx.recs) \/ tx.recs = <<>>
-     THEN /\ log' = log \o StampFailed(tx.id, tx.recs, a.nw)
+     THEN /\ \E B0 \in (IF a.nw = 0 THEN {log} ELSE Bases(log)) : log' = B0 \o StampFailed(tx.id, tx.recs, a.nw)
           /\ mem' = mem
-     ELSE /\ log' \in {log \o Stamp(tx.id, tx.recs), log \o StampFailed(tx.id, tx.recs, a.nw - 1)}
-          /\ mem' \in {mem, tx.view}
+          /\ UNCHANGED notes
+     ELSE \* every record was written; the failure came afterwards
+          \/ /\ \E B0 \in Bases(log) : log' = B0 \o Stamp(tx.id, tx.recs)
+             /\ mem' = tx.view /\ UNCHANGED notes
+          \/ /\ \E B0 \in Bases(log) : log' = B0 \o StampFailed(tx.id, tx.recs, a.nw - 1)
+             /\ mem' = mem /\ UNCHANGED notes
+          \/ /\ F_SyncDoubt \in Dev
+             /\ \E B0 \in Bases(log) : log' = B0 \o StampDoubt(tx.id, tx.recs)
+             /\ mem' = mem /\ notes' = notes \cup {F_SyncDoubt}
   /\ tx' = NoTx
-  /\ UNCHANGED <<status, notes>>
+  /\ UNCHANGED status
 
 \* Tx.Rollback, or Update/View whose function returned an error
 Rollback(a) ==
@@ -427,7 +448,8 @@ Open(a) ==
   /\ status = "closed" /\ ~a.err
   /\ status' = "open"
   /\ mem' = Replay(log)
-  /\ UNCHANGED <<log, tx, notes>>
+  /\ log' = ClearDoubt(log)
+  /\ UNCHANGED <<tx, notes>>
 
 \* Merge, successful or not, changes nothing a reader sees now or after
 \* reopen (C15)
